@@ -30,11 +30,20 @@ type sweepCfg struct {
 func sweepConfigs(thorough bool) []sweepCfg {
 	s := []sweepCfg{
 		{"force", false, "tcp"}, {"force", true, "tcp"}, {"ca", false, "tcp"}, {"force", false, "websocket"},
-		{"force-ini", false, "tcp"},
 	}
 	if thorough {
 		s = append(s, sweepCfg{"ca", true, "tcp"}, sweepCfg{"ca", true, "websocket"}, sweepCfg{"force", true, "websocket"},
-			sweepCfg{"force", false, "kcp"}, sweepCfg{"ca", true, "kcp"}, sweepCfg{"force-ini", true, "websocket"})
+			sweepCfg{"force", false, "kcp"}, sweepCfg{"ca", true, "kcp"})
+	}
+	return s
+}
+
+// legacySweepConfigs: the forced-TLS server written as a legacy INI document (tls_only). These cases run
+// after all others so that the case indices (and with them the PRNG draws) of the older families stay put.
+func legacySweepConfigs(thorough bool) []sweepCfg {
+	s := []sweepCfg{{"force-ini", false, "tcp"}}
+	if thorough {
+		s = append(s, sweepCfg{"force-ini", true, "websocket"})
 	}
 	return s
 }
